@@ -98,8 +98,8 @@ H("C15", "wmo", _WW, "quick", "C15.d witness: WmoGroupParser::parse_group reject
 H("C15", "wmo", _WW, "quick", "C15.b witness: MOHD payload is 60 bytes, the format / root_parser::Mohd 64", ["c15b_mohd_size_witness"],
   ["writer::WmoWriter::write_header"], "concrete: empty root, Classic", "one input", stubs=[FMT, RS], expect="witness:KF-C15-mohd-size")
 H("C15", "wmo", _WW, "quick", "canary", ["c15_writer_canary"], ["writer::WmoWriter::write_indices"], "vacuity twin", "-", expect="canary", stubs=[FMT])
-H("C15", "wmo", _WW, "thorough", "C15.a MOMT record as chunks::MomtEntry (parse_wmo) reads it", ["c15a_momt_vs_entry"],
-  ["writer::WmoWriter::write_materials", "chunks::MomtEntry::read"], "every material field symbolic, MoP", "1 material", stubs=[FMT], timeout=2400)
+H("C15", "wmo", _WW, "quick", "C15.a MOMT record layout against the format's SMOMaterial (as chunks::MomtEntry declares it): field offsets, zero tail", ["c15a_momt_record_layout"],
+  ["writer::WmoWriter::write_materials"], "every material field symbolic, MoP", "1 material", stubs=[FMT])
 
 # ----------------------------------------------------------------------------- writer -> real private parser (WmoParser)
 _PS = [FMT, _TR, _TAB, _VIS]
@@ -128,9 +128,9 @@ H("C15", "wmo", _WP, "quick", "C15 witness: bounding box after write_root -> par
   ["c15p_root_bbox_witness"], ["writer::WmoWriter::write_root", "parser::WmoParser::{parse_header,parse_group_info,calculate_global_bounding_box}"],
   "concrete: empty root, box max (1,1,1)", "one input", stubs=_PS + [RS], expect="witness:KF-C15-root-bbox")
 H("C15", "wmo", _WP, "quick", "canary", ["c15_parser_canary"], ["parser::WmoParser::parse_portal_references"], "vacuity twin", "-", expect="canary", stubs=_PS)
-H("C15", "wmo", _WP, "thorough", "C15.a(T) two portals: vertices attributed to the right portal", ["c15p_portals_roundtrip_2"],
+H("C15", "wmo", _WP, "quick", "C15.a(T) two portals: vertices attributed to the right portal", ["c15p_portals_roundtrip_2"],
   ["parser::WmoParser::parse_portals", "writer::WmoWriter::write_portals"], "portal 0: symbolic finite normal, vertex (1,0,0); portal 1: two symbolic vertices, normal (0,0,1)",
-  "2 portals, 92 bytes", assumes=["portal 0 normal finite (Kani's NaN check fires on inf * 0 in the writer's plane-distance product)"], stubs=_PS, timeout=2400)
+  "2 portals, 92 bytes", assumes=["portal 0 normal finite (Kani's NaN check fires on inf * 0 in the writer's plane-distance product)"], stubs=_PS)
 H("C15", "wmo", _WP, "quick", "C15.c(T) texture names and offset table size after write_textures -> parse_textures", ["c15p_textures_roundtrip"],
   ["parser::WmoParser::parse_textures", "writer::WmoWriter::write_textures"], "concrete names \"abc\", \"ab\" (the offset table is a real std HashMap)", "2 names",
   stubs=_PS + [RS])
@@ -170,7 +170,7 @@ OUTSIDE["C15"] = [
     "MLIQ beyond the witness (framing broken, KF-C15-mliq-size); liquid vertex layouts pre/post WoD; width == 0 underflow",
     "MOBN content (layout differs from the crate's reader, KF-C15-mobn-layout; the plane normal is stored lossily)",
     "MOVV/MOVB as root_parser reads them (vertices + ranges) - writer and WmoParser use an offset table + 0xFFFF-terminated lists",
-    "MOMT below MoP beyond the witness; MomtEntry texture_3/color_2/flags_2 (not in WmoMaterial)",
+    "MOMT below MoP beyond the witness; chunks::MomtEntry::read on the written record (binrw, 64 bytes + Vec<u8>: no verdict after 17 CPU-minutes; replaced by a layout check against the documented offsets)",
     "chunk_discovery::discover_chunks and api::parse_wmo themselves (stage 1 of the public reader): > 10 min for 12 symbolic bytes, > 10 GB for one concrete 80-byte file; stage 2 (parse_root_file / parse_group_file) is driven with a literal chunk discovery instead",
     "convex volume planes (MCVP), fog, and every chunk the writer never emits; WmoEditor; validator",
     "fields that are not on disk in this writer: WmoLight::properties, WmoMaterial::framebuffer_blend, WmoDoodadDef::set_index, upper 8 bits of the MODD name index",
